@@ -691,7 +691,7 @@ def check_toy_compress(ctx, rep, rng, tier):
         it = iter(sched)
         orig_read = src.read
 
-        def read(nb, _o=orig_read, _it=it, _src=src):
+        def read(nb=-1, _o=orig_read, _it=it, _src=src):
             _src.k = next(_it, 1 << 60)
             return _o(nb)
 
